@@ -393,3 +393,11 @@ def s6(ctx):
 
 
 RULES.append(s6)
+
+
+@rule("MC", doc="must-call census: no function of this property's files has gained an early exit in front of work it always did (every crate-local call that lay on all paths to a normal return in the reviewed tree still does)")
+def mc(ctx):
+    C.must_call_census(ctx, ctx.lib(), ['src/rewrite/mod.rs', 'src/run/runner.rs', 'src/run/run.rs', 'src/run/report.rs'])
+
+
+RULES.append(mc)
